@@ -428,7 +428,7 @@ const TOK_KINDS: [(&str, &str); 22] = [
 
 fn emit_total(out: &mut Out, ev: &str, src: &str, toks: Option<Vec<&str>>, id: u64) {
     let res = assemble(src, true);
-    let mut e = json!({"ev": ev, "id": id, "src": src, "res": res.res, "stage": res.stage, "msg": res.msg,
+    let mut e = json!({"ev": ev, "id": id, "src": src, "res": res.res, "stage": res.stage, "msg": res.msg, "code": res.code,
                        "diag_ok": res.diag_ok, "spans_ok": res.spans_ok});
     if let Some(t) = toks {
         e["toks"] = json!(t);
